@@ -60,7 +60,28 @@ def run(prog, ctx):
             res.obligations += 1
             facts = s.cmp_facts_at(b)
             eq = [x for x in facts if x[0] == "Eq" and len(x) == 3 and lg_like(x[1]) and lg_like(x[2]) and x[1] != x[2]]
-            if eq:
+            # the two sides must be the lg_k of the *input* and the lg_k of the *union's gadget*: follow parameters to the call sites
+            def origin(e, fn_, depth=0):
+                """set of roles {'input', 'self'} an lg expression derives from"""
+                roles = set()
+                for t in sym.walk(e):
+                    if t[0] == "param":
+                        if t[1] == 1 and (t[2] or "") == "self":
+                            roles.add("self")
+                        elif fn_.local_ty(t[1]).startswith(("&hll::sketch::HllSketch", "hll::sketch::HllSketch", "&hll::mode::Mode", "&hll::Mode")) or "HllSketch" in fn_.local_ty(t[1]) or "Mode" in fn_.local_ty(t[1]):
+                            roles.add("input")
+                        elif depth < 3:
+                            for g in ufns:
+                                sg = Sym(prog, g)
+                                for bb, site in g.calls():
+                                    if site.get("callee") == fn_.id and len(site["args"]) >= t[1]:
+                                        roles |= origin(sg.at(bb, "t").operand(site["args"][t[1] - 1]), g, depth + 1)
+                return roles
+            good = [x for x in eq if {frozenset(origin(x[1], f)), frozenset(origin(x[2], f))} == {frozenset({"input"}), frozenset({"self"})}]
+            if eq and not good:
+                res.violate("C03.L", "C03.L|%s|operands" % f.id, "%s adopts a sparse input under the guard %s == %s, which does not compare the input's lg_k with the gadget's lg_k (origins: %s / %s)" % (
+                    f.id, show(eq[0][1]), show(eq[0][2]), sorted(origin(eq[0][1], f)), sorted(origin(eq[0][2], f))), f.id, span)
+            elif eq:
                 res.discharged += 1
                 res.sample({"rule": "C03.L", "fn": f.id, "adopted": show(val)[:80], "guard": "%s == %s" % (show(eq[0][1]), show(eq[0][2]))})
             else:
@@ -99,16 +120,14 @@ def run(prog, ctx):
                 res.obligations += 1
                 val = s.operand(site["args"][2])
                 facts = s.cmp_facts_at(b)
-                ok = False
-                for x in facts:
-                    if x[0] in ("Gt", "Lt") and len(x) == 3:
-                        a, c = (x[1], x[2]) if x[0] == "Gt" else (x[2], x[1])
-                        if a == val and sym.contains(c, lambda t: t[0] in ("index",) or (t[0] == "call" and t[1].endswith("values"))):
-                            ok = True
-                if ok:
+                is_old = lambda c: sym.contains(c, lambda t: t[0] in ("index",) or (t[0] == "call" and t[1].rsplit("::", 1)[-1] in ("values", "index", "get", "get_register")))
+                ok = C.max_store_verdict(prog, f, s, b, val, is_old)
+                if ok is True:
                     res.discharged += 1
+                elif ok is None:
+                    res.undecided += 1
                 else:
-                    res.violate("C03.X", "C03.X|%s|set_register" % f.id, "register store in %s is not guarded by `src > current`" % f.id, f.id, site["span"])
+                    res.violate("C03.X", "C03.X|%s|set_register" % f.id, "register store in %s is not a max-merge: no guard `src > current` dominates it (or the guard is reversed)" % f.id, f.id, site["span"])
                 # K: slot mask when down-sampling
                 slot = s.operand(site["args"][1])
                 m = C.shl_one_amount(slot)
@@ -118,8 +137,10 @@ def run(prog, ctx):
                     nm = show(m)
                     if "dst" in nm or nm.endswith("self.lg_config_k"):
                         res.discharged += 1
-                    else:
+                    elif "src" in nm:
                         res.violate("C03.K", "C03.K|%s" % f.id, "down-sample slot mask in %s uses %s, expected the destination lg_k" % (f.id, nm), f.id, site["span"])
+                    else:
+                        res.undecided += 1
         # direct stores `bytes[i] = max(bytes[i], val)` in Array8 merges
         for b, base, ie, e, span, _s in C.buffer_stores(prog, f, "bytes"):
             if f.item_name in ("set_register", "put"):
@@ -127,10 +148,14 @@ def run(prog, ctx):
             if True:
                 n_x += 1
                 res.obligations += 1
-                if e[0] == "call" and e[1] == "max" and sym.contains(e, lambda t: t[0] == "index"):
+                is_old2 = lambda c: sym.contains(c, lambda t: (t[0] == "index" and "bytes" in show(t)) or (t[0] == "call" and t[1].rsplit("::", 1)[-1] in ("index", "index_mut") and "bytes" in show(t)) or t[0] == "var")
+                ok = C.max_store_verdict(prog, f, _s, b, e, is_old2)
+                if ok is True:
                     res.discharged += 1
+                elif ok is None:
+                    res.undecided += 1
                 else:
-                    res.violate("C03.X", "C03.X|%s|bytes" % f.id, "bulk register store in %s is %s, expected max(old, src)" % (f.id, show(e)), f.id, span)
+                    res.violate("C03.X", "C03.X|%s|bytes" % f.id, "bulk register store in %s is %s, which is not max(old, src) nor guarded by src > old" % (f.id, show(e)), f.id, span)
                 if True:
                     m = C.shl_one_amount(ie)
                     if m is not None:
@@ -138,8 +163,10 @@ def run(prog, ctx):
                         res.obligations += 1
                         if show(m).endswith("self.lg_config_k"):
                             res.discharged += 1
-                        else:
+                        elif "src" in show(m) or "other" in show(m):
                             res.violate("C03.K", "C03.K|%s" % f.id, "down-sample slot mask in %s uses %s, expected self.lg_config_k" % (f.id, show(m)), f.id, span)
+                        else:
+                            res.undecided += 1
     res.rule("C03.X", n_x, 4, "register stores into the gadget outside Array8::update")
     res.rule("C03.K", n_k, 2, "down-sample slot masks")
 
@@ -156,11 +183,23 @@ def run(prog, ctx):
                     n_k += 1
                     if a0[2][0] == a1:
                         res.discharged += 1
+                    elif sym.contains(a1, lambda t: t[0] == "var") or sym.contains(a0[2][0], lambda t: t[0] == "var"):
+                        res.undecided += 1
                     else:
                         res.violate("C03.K", "C03.K|%s|dst-lg" % f.id, "%s passes a destination array built at lg %s together with lg %s" % (f.id, show(a0[2][0]), show(a1)), f.id, site["span"])
 
     # ---------------- C03.C : rebuild after bulk stores
     n_c = 0
+    _eff = {}
+
+    def effect(callee, field):
+        """does the callee (transitively) store HipEstimator.<field>?"""
+        if not callee or callee not in prog.fns:
+            return False
+        key = (callee, field)
+        if key not in _eff:
+            _eff[key] = any(True for g in C.reach_from(prog, [callee]) for _ in sym.field_stores(prog, adt="hll::estimator::HipEstimator", field=field, fns=[g]))
+        return _eff[key]
     for f in cand:
         has_bulk = any((site.get("callee") or "").endswith("Array8::set_register") for _, site in f.calls()) or (
             f.item_name not in ("set_register", "put") and any(True for _ in C.buffer_stores(prog, f, "bytes")))
@@ -169,14 +208,15 @@ def run(prog, ctx):
         n_c += 1
         res.obligations += 1
         s = Sym(prog, f)
-        rb = [b for b, site in f.calls() if (site.get("callee") or "").rsplit("::", 1)[-1] in ("rebuild_estimator_from_registers", "rebuild_cached_values")]
+        # "rebuild" is recognised by effect, not by name: a callee that (transitively) stores the estimator's kxq0 register
+        rb = [b for b, site in f.calls() if effect(site.get("callee"), "kxq0")]
         if rb and not s.reaches_exit_avoiding(0, set(rb)):
             res.discharged += 1
         else:
-            res.violate("C03.C", "C03.C|%s" % f.id, "%s stores registers in bulk but a path to its exit skips the rebuild of the cached values" % f.id, f.id)
+            res.violate("C03.C", "C03.C|%s" % f.id, "%s stores registers in bulk but a path to its exit skips the rebuild of the cached values (no call that recomputes KxQ on that path)" % f.id, f.id)
         if f.owner == "hll::array8::Array8":
             res.obligations += 1
-            so = [b for b, site in f.calls() if (site.get("callee") or "").endswith("set_out_of_order")]
+            so = [b for b, site in f.calls() if effect(site.get("callee"), "out_of_order")]
             if so and not s.reaches_exit_avoiding(0, set(so)):
                 res.discharged += 1
             else:
@@ -185,8 +225,7 @@ def run(prog, ctx):
     rb8 = C.fn_one(prog, "hll::array8::Array8", "rebuild_estimator_from_registers")
     if rb8 is not None:
         res.obligations += 1
-        names = [(site.get("callee") or "").rsplit("::", 1)[-1] for _, site in rb8.calls()]
-        if "rebuild_cached_values" in names and "set_out_of_order" in names:
+        if any(effect(site.get("callee"), "kxq0") for _, site in rb8.calls()) and any(effect(site.get("callee"), "out_of_order") for _, site in rb8.calls()):
             res.discharged += 1
         else:
             res.violate("C03.C", "C03.C|rebuild_estimator_from_registers", "rebuild_estimator_from_registers no longer recomputes the cached values and sets the out-of-order flag", rb8.id)
